@@ -444,7 +444,9 @@ fn failed_end_case(i: &Input, c: &mut Case, check_verdicts: bool) -> Result<(), 
         let before = wr.dest().to_vec();
         let end_op = &ops[e];
         let child = WOp::Write(Flat::Leaf(cid, mk(&mut t, 3)), WOpt::Default);
-        let script: [(&WOp, bool); 4] = [(end_op, false), (end_op, false), (&child, true), (end_op, false)];
+        // (flush() has to close the same master and must fail the same way, leaving it open and unchanged)
+        let flush = WOp::Flush;
+        let script: [(&WOp, bool); 8] = [(end_op, false), (end_op, false), (&child, true), (end_op, false), (&flush, false), (&child, true), (&flush, false), (end_op, false)];
         let mut hist = Vec::new();
         for (op, want_ok) in script {
             let r = wr.apply(op);
